@@ -104,6 +104,7 @@ def runOp (st : DSt) (toks : List String) : Option (String × Option Bytes) := d
   | "s_with_cap" => return ("unit", some [])
   | "s_from_str" => let t ← (kvS toks "t").bind parseBytes; return ("unit", some t)
   | "s_from_iter" => let cs ← (kvS toks "cs").bind parseCps; return ("unit", some (fromIter cs))
+  | "d_glue" => return ("ok", st.cur)     -- trait impls against `std`, compared in the harness; nothing for the model to say
   | "d_lossy" =>
     let b ← (kvS toks "b").bind parseBytes
     return (outc (fromUtf8Lossy st.dbg b) fun r => (s!"ok:{bytesHex r}", st.cur))
